@@ -212,7 +212,11 @@ Lemma backward_intact_l (p : path) source data nsx rnd nss nso :
     /\ on_packet enc dec (p_origin p) a1 (nth (length (p_relays p)) links []) rnd nso
        = Ok (p_origin p,
              if could_be_ipv8 data && negb (is_e2e (c_ctype (p_circ p))) then
-               if bytes_eqb (p_pfx p) (slice data None (Some 22)) then [Reinject source data (p_cid p)]
+               if bytes_eqb (p_pfx p) (slice data None (Some 22)) then
+                 match idx data 22 with
+                 | Ok m => if existsb (Z.eqb m) (n_data_ids (p_origin p)) then [Reinject source data (p_cid p)] else []
+                 | Raise _ => []
+                 end
                else if n_tunnel_ep (p_origin p) then [NotifyOther source data] else []
              else [RawData (p_cid p) source data]).
 Proof.
